@@ -5,7 +5,7 @@ use std::any::TypeId;
 use std::mem::{size_of, ManuallyDrop};
 use std::ptr::NonNull;
 
-use any_vec::any_value::{AnyValue, AnyValueMut, AnyValueRaw, AnyValueTypeless, AnyValueTypelessMut, AnyValueWrapper};
+use any_vec::any_value::{AnyValue, AnyValueMut, AnyValueRaw, AnyValueSizeless, AnyValueSizelessMut, AnyValueTypeless, AnyValueTypelessMut, AnyValueWrapper};
 use any_vec::{AnyVec, SatisfyTraits};
 
 use crate::caps::{TrX, MX};
@@ -13,8 +13,8 @@ use crate::elem::{self, Elem, W8DX};
 use crate::exec::{guarded, snap, snap_matches, Caught, Out, World};
 use crate::types::*;
 
-pub const N_WRITERS: u8 = 10;
-pub const N_READERS: u8 = 6;
+pub const N_WRITERS: u8 = 15;
+pub const N_READERS: u8 = 12;
 pub const N_SWAP_KINDS: u8 = 7;
 pub const N_WRONG_TYPES: u8 = 7;
 
@@ -39,8 +39,8 @@ impl<T: Elem + SatisfyTraits<Tr>, M: MX, Tr: TrX + ?Sized> World<T, M, Tr> {
         let World { a, b, ma, mb, .. } = self;
         let sz = T::SIZE;
         // 1. write
-        let via_handle = w >= 6;
-        if w >= 8 && i != len - 1 { out.outcome.push_str("n/a"); return; } // pop handles address the last element
+        let via_handle = matches!(w, 6..=9 | 14);
+        if matches!(w, 8 | 9 | 14) && i != len - 1 { out.outcome.push_str("n/a"); return; } // pop handles address the last element
         let res = guarded(|| -> u16 {
             match w {
                 0 => { let mut e = a.at_mut(i); let t = e.downcast_mut::<T>().unwrap(); let _w = elem::WindowOff::new(); t.retag(); t.id() }
@@ -54,7 +54,14 @@ impl<T: Elem + SatisfyTraits<Tr>, M: MX, Tr: TrX + ?Sized> World<T, M, Tr> {
                 7 => { let mut h = a.swap_remove(i); let id = write_bytes_fresh::<T>(h.as_bytes_mut()); b.as_mut().unwrap().push(h); id }
                 8 => { let mut h = a.pop().unwrap(); let id = { let t = h.downcast_mut::<T>().unwrap(); let _w = elem::WindowOff::new(); t.retag(); t.id() };
                        let seen = h.downcast_ref::<T>().unwrap().id(); if seen != id { return u16::MAX; } b.as_mut().unwrap().push(h); id }
-                _ => { let mut h = a.pop().unwrap(); let id = write_bytes_fresh::<T>(h.as_bytes_mut()); let seen = elem::id_of_bytes(h.as_bytes()); if seen != id { return u16::MAX; } b.as_mut().unwrap().push(h); id }
+                9 => { let mut h = a.pop().unwrap(); let id = write_bytes_fresh::<T>(h.as_bytes_mut()); let seen = elem::id_of_bytes(h.as_bytes()); if seen != id { return u16::MAX; } b.as_mut().unwrap().push(h); id }
+                // raw-pointer views of an element handle, the typed view's IndexMut / as_mut_ptr, unchecked downcast
+                10 => { let mut e = a.at_mut(i); let p = e.as_bytes_mut_ptr(); write_bytes_fresh::<T>(unsafe { std::slice::from_raw_parts_mut(p, sz) }) }
+                11 => { let mut t = a.downcast_mut::<T>().unwrap(); let x = t.iter_mut().nth(i).unwrap(); let _w = elem::WindowOff::new(); x.retag(); x.id() }
+                12 => { let mut t = a.downcast_mut::<T>().unwrap(); let x = unsafe { &mut *t.as_mut_ptr().add(i) }; let _w = elem::WindowOff::new(); x.retag(); x.id() }
+                13 => { let mut e = a.at_mut(i); let t = unsafe { e.downcast_mut_unchecked::<T>() }; let _w = elem::WindowOff::new(); t.retag(); t.id() }
+                _ => { let mut h = a.pop().unwrap(); let p = h.as_bytes_mut_ptr(); let id = write_bytes_fresh::<T>(unsafe { std::slice::from_raw_parts_mut(p, sz) });
+                       let seen = elem::id_of_bytes(unsafe { std::slice::from_raw_parts(h.as_bytes_ptr(), sz) }); if seen != id { return u16::MAX; } b.as_mut().unwrap().push(h); id }
             }
         });
         let new_id = match res {
@@ -64,7 +71,7 @@ impl<T: Elem + SatisfyTraits<Tr>, M: MX, Tr: TrX + ?Sized> World<T, M, Tr> {
         };
         // model
         if new_id == u16::MAX { out.fail(Class::Vec, "incoherent-view", format!("a value written through a mutable view of the pop handle (writer {w}) is not seen through its shared view")); out.faulted = true; return; }
-        match w { 6 => { ma.remove(i); mb.push(Mv::Id(new_id)); } 7 => { ma.swap_remove(i); mb.push(Mv::Id(new_id)); } 8 | 9 => { ma.pop(); mb.push(Mv::Id(new_id)); } _ => ma[i] = Mv::Id(new_id) }
+        match w { 6 => { ma.remove(i); mb.push(Mv::Id(new_id)); } 7 => { ma.swap_remove(i); mb.push(Mv::Id(new_id)); } 8 | 9 | 14 => { ma.pop(); mb.push(Mv::Id(new_id)); } _ => ma[i] = Mv::Id(new_id) }
         // 2. read back through the reader kind (for handle writers the value now lives at the end of B)
         let seen: Result<u16, Caught> = if via_handle {
             let vb = b.as_ref().unwrap();
@@ -318,6 +325,12 @@ fn read_through<T: Elem, Tr: ?Sized + TrX, MV: MX>(v: &AnyVec<Tr, MV>, r: u8, i:
         2 => v.downcast_ref::<T>().unwrap().as_slice()[i].id(),
         3 => elem::id_of_bytes(&v.as_bytes()[i * sz..(i + 1) * sz]),
         4 => v.iter().nth(i).unwrap().downcast_ref::<T>().unwrap().id(),
-        _ => v.downcast_ref::<T>().unwrap().get(i).unwrap().id(),
+        5 => v.downcast_ref::<T>().unwrap().get(i).unwrap().id(),
+        6 => { let e = v.at(i); elem::id_of_bytes(unsafe { std::slice::from_raw_parts(e.as_bytes_ptr(), sz) }) }
+        7 => v.downcast_ref::<T>().unwrap().iter().nth(i).unwrap().id(),
+        8 => { let t = v.downcast_ref::<T>().unwrap(); unsafe { &*t.as_ptr().add(i) }.id() }
+        9 => { let e = v.at(i); unsafe { e.downcast_ref_unchecked::<T>() }.id() }
+        10 => { let n = v.len(); v.iter().rev().nth(n - 1 - i).unwrap().downcast_ref::<T>().unwrap().id() }
+        _ => { let e = v.at(i); let c = e.clone(); drop(e); c.downcast_ref::<T>().unwrap().id() }
     }
 }
